@@ -47,6 +47,8 @@ enum Flavour {
     WrapperSpender,
     /// examples/fungible-votes (mint by owner, transfer, no burn)
     Example,
+    /// the example contract; `transfer_from` with the holder named as its own spender (self-approved)
+    ExampleSelfSpender,
     /// NftVotesTok, explicit token ids
     Nft,
     /// NftVotesTok, sequential_mint
@@ -58,7 +60,7 @@ impl Flavour {
         matches!(self, Flavour::Nft | Flavour::NftSeq)
     }
     fn has_burn(self) -> bool {
-        self != Flavour::Example
+        !matches!(self, Flavour::Example | Flavour::ExampleSelfSpender)
     }
 }
 
@@ -165,6 +167,7 @@ impl Vw {
             Op::Burn { from, a, via: false } => call_mocked(e, &i.c, "burn", (u(*from), *a).into_val(e)),
             Op::Burn { from, a, via: true } => call_mocked(e, &i.c, "burn_from", (sp, u(*from), *a).into_val(e)),
             Op::Transfer { from, to, a, via: false } => call_mocked(e, &i.c, "transfer", (u(*from), u(*to), *a).into_val(e)),
+            Op::Transfer { from, to, a, via: true } if self.flavour == Flavour::ExampleSelfSpender => call_mocked(e, &i.c, "transfer_from", (u(*from), u(*from), u(*to), *a).into_val(e)),
             Op::Transfer { from, to, a, via: true } => call_mocked(e, &i.c, "transfer_from", (sp, u(*from), u(*to), *a).into_val(e)),
             Op::NMint { to, id } => {
                 if self.flavour == Flavour::NftSeq {
@@ -489,7 +492,7 @@ impl Vw {
 
     /// Seed prefixes (executed and modelled in `fresh`).
     fn seed_ops(&self, seed: usize) -> Vec<Op> {
-        let via = self.flavour == Flavour::WrapperSpender;
+        let via = matches!(self.flavour, Flavour::WrapperSpender | Flavour::ExampleSelfSpender);
         let del = |a, b, re| Op::Delegate { a, b, re };
         match (seed, self.flavour.nft()) {
             (0, _) | (3, _) => vec![],
@@ -562,6 +565,7 @@ impl World for Vw {
             Flavour::Wrapper => "fungible-votes-wrapper",
             Flavour::WrapperSpender => "fungible-votes-wrapper-spender",
             Flavour::Example => "fungible-votes-example",
+            Flavour::ExampleSelfSpender => "fungible-votes-example-holder-as-own-spender",
             Flavour::Nft => "nft-votes-wrapper",
             Flavour::NftSeq => "nft-votes-wrapper-seq",
         };
@@ -581,7 +585,7 @@ impl World for Vw {
         let owner = Address::generate(&e);
         let c = match self.flavour {
             Flavour::Wrapper | Flavour::WrapperSpender => e.register(tokens::VotesTok, ()),
-            Flavour::Example => e.register(votes_example::ExampleContract, (owner,)),
+            Flavour::Example | Flavour::ExampleSelfSpender => e.register(votes_example::ExampleContract, (owner,)),
             Flavour::Nft | Flavour::NftSeq => e.register(nft_votes::NftVotesTok, ()),
         };
         // spender paths: unlimited approvals that outlive every explored horizon
@@ -590,6 +594,11 @@ impl World for Vw {
             Flavour::WrapperSpender => {
                 for k in 0..N {
                     call_mocked(&e, &c, "approve", (u[k].clone(), sp.clone(), i128::MAX, live).into_val(&e)).expect("approve");
+                }
+            }
+            Flavour::ExampleSelfSpender => {
+                for k in 0..N {
+                    call_mocked(&e, &c, "approve", (u[k].clone(), u[k].clone(), i128::MAX, live).into_val(&e)).expect("approve");
                 }
             }
             Flavour::Nft | Flavour::NftSeq => {
@@ -628,7 +637,7 @@ impl World for Vw {
             }
             out
         };
-        let via = self.flavour == Flavour::WrapperSpender;
+        let via = matches!(self.flavour, Flavour::WrapperSpender | Flavour::ExampleSelfSpender);
         if self.flavour.nft() {
             let cap = 4;
             if m.owner.len() < cap {
@@ -786,6 +795,7 @@ fn main() {
                     (NftSeq, 1, 3, 8),
                     (Wrapper, 3, 4, 20),
                     (Example, 3, 3, 10),
+                    (ExampleSelfSpender, 0, 4, 12),
                     (Nft, 3, 4, 20),
                 ]
             } else {
@@ -798,6 +808,7 @@ fn main() {
                     (WrapperSpender, 1, 2, 2),
                     (Example, 0, 3, 2),
                     (Example, 1, 2, 2),
+                    (ExampleSelfSpender, 0, 3, 2),
                     (Nft, 0, 4, 4),
                     (Nft, 1, 3, 4),
                     (NftSeq, 0, 3, 2),
